@@ -372,5 +372,45 @@ func jlStream(seed uint64, tier string, outDir string, props map[string]bool, fo
 		}
 	}
 	flush()
+	jlDescriptorSweep(bin, mkdir, rep, violate, tier)
 	return rep
+}
+
+// a directed sweep: every format x every raw-type name of jl's registry as the descriptor of one column, on input and
+// output side alike, fed with values on which the typed and the untyped conversions differ (integers, fractions,
+// RFC 3339 texts with a fraction of a second, base64, booleans); stdout and exit status must be those of the library
+// streamer on the equivalent templates
+func jlDescriptorSweep(bin string, mkdir func(string) string, rep *streamReport, violate func(string, interface{}), tier string) {
+	stdin := strings.Join([]string{`{"c":1632478272}`, `{"c":"2021-09-24T10:11:12.5-03:30"}`, `{"c":"2021-10-31T02:30:00.25+02:00"}`, `{"c":"x"}`, `{"c":1.5}`,
+		`{"c":"AQ=="}`, `{"c":true}`, `{"c":null}`, `{"c":"12"}`, `{"c":"2021-09-24"}`, `{"c":12345678901234567890}`, `{"c":[1]}`}, "\n") + "\n"
+	types := append([]string{""}, typeNames...)
+	for fi, f := range allFormats {
+		for ti, tn := range types {
+			if tier != "thorough" && (fi+ti)%2 == 1 && tn != "time.Time" && tn != "json.Number" && tn != "[]byte" {
+				continue // (the quick tier takes every descriptor with a capital or a bracket in it and half of the others)
+			}
+			desc := formatWords[f]
+			if tn != "" {
+				desc += "(" + tn + ")"
+			}
+			for _, other := range []string{desc, "auto"} {
+				inline := fmt.Sprintf(`{"c":"%s:%s"}`, other, desc)
+				run := runJl(bin, mkdir("s"), []string{"-t", inline}, stdin)
+				inF, inT := jsonline.Auto, interface{}(nil)
+				if other == desc {
+					inF, inT = f, typeSample[tn]
+				}
+				ti2 := jsonline.NewTemplate().With("c", inF, inT)
+				to2 := jsonline.NewTemplate().With("c", f, typeSample[tn])
+				var lib bytes.Buffer
+				_ = jsonline.NewStreamer(ti2.GetImporter(strings.NewReader(stdin)), to2.GetExporter(&lib)).WithProcessor(jsonline.NoFailureProcessor).Stream()
+				rep.OracleChecks["C19"]++
+				rep.Cases++
+				if run.exit != 0 || !bytes.Equal(run.stdout, lib.Bytes()) {
+					violate(fmt.Sprintf("jl -t %s: exit %d, output %q; the library streamer with With(\"c\", %s, %T) gives %q", inline, run.exit, run.stdout, formatWords[f], typeSample[tn], lib.Bytes()),
+						map[string]interface{}{"stream": "jl", "inline": inline, "stdin": stdin})
+				}
+			}
+		}
+	}
 }
